@@ -1,7 +1,7 @@
 (** Top-level statements about Parse: the machine started by p.parse on a reset state returns what
     the reference semantics says, for every memo / inline setting the generator can choose. *)
 From PegV Require Import Base.Tac Base.ListX Spec.Syntax Spec.Peg Model.Machine Model.SkipCheck Model.Runtime Model.Analyses Model.Gen
-  Spec.Tokens Spec.WF Proofs.PegFacts Proofs.Sim Proofs.AsuSound Proofs.Forest Proofs.RuntimeProofs Proofs.Total.
+  Spec.Tokens Spec.WF Proofs.PegFacts Proofs.Sim Proofs.AsuSound Proofs.Forest Proofs.RuntimeProofs Proofs.Total Proofs.SimNoast.
 
 Definition good_grammar (g : grammar) : Prop := forall r b, nth_error g r = Some (RBody b) -> expr_ok b = true.
 Definition good_buf (buf : list rune) : Prop := forall c, In c buf -> c <> endSymbol.
@@ -294,3 +294,46 @@ Proof.
 Qed.
 
 End Corollaries.
+
+
+(** * -noast *)
+Section Noast.
+Variable g : grammar.
+Variable ptx : nat.
+Variable buf : list rune.
+Variable penv : nat -> nat -> bool.
+Hypothesis Hg : good_grammar g.
+Hypothesis Hbuf : good_buf buf.
+Hypothesis Hsw : good_switches g.
+Hypothesis Hptx : forall rb, nth_error g ptx = Some rb -> rb = RNil.
+
+Definition machine_noast (inline : bool) (n r : nat) (st0 : mstate) : option mres :=
+  entry g ptx buf penv (mk_opts false false inline g) n r (reset st0).
+
+(** C07: the -noast machine returns the verdict and prefix of the semantics; its inline action log is
+    Execute's loop over all events of the attempt in time order, starting from the text register the
+    parser object already had (a fresh object has (0,0), the empty text). *)
+Theorem c07_noast inline n r st0 rr :
+  o_inline (mk_opts false false inline g) r = false ->
+  peg_parse g ptx buf penv n r = Some rr ->
+  exists st', machine_noast inline n r st0 = Some (Ret (match fst rr with Fail => false | Succ _ _ => true end) st') /\
+    alog st' = execute g ptx (snd rr) (text st0) /\
+    match fst rr with Succ p _ => pos st' = p /\ p <= length buf | Fail => True end.
+Proof.
+  intros Hinl H. unfold peg_parse in H. set (o := mk_opts false false inline g).
+  assert (Hasu' : forall r, o_asu o r = true -> forall n p evs, peg_ev g ptx buf penv n (EName r) p <> Some (Fail, evs)).
+  { intros r' Hr'. apply asu_rule_sound. unfold o, mk_opts in Hr'. cbn [o_asu] in Hr'. apply nth_map_seq in Hr'. exact Hr'. }
+  set (st := reset st0).
+  assert (Hp : pos st <= length buf) by (unfold st, reset; cbn; lia).
+  pose proof (simN g ptx buf penv o eq_refl Hg (Hsw inline) Hasu' Hbuf Hptx n (EName r) false false st rr Hp eq_refl I
+                   (SimNoast.flag_ok_false g buf o (EName r) false st) H) as (st' & R & T & L & P).
+  destruct n as [|n]; [discriminate|].
+  assert (Hslot : exists rb, nth_error g r = Some rb /\ rb <> RNil).
+  { cbn [peg_ev] in H. destruct (nth_error g r) as [[b|k|]|]; try discriminate; eexists; split; eauto; discriminate. }
+  destruct Hslot as (rb & Erb & Hnn).
+  assert (Hentry : machine_noast inline (S n) r st0 = run_f g ptx buf penv o (S n) (EName r) false false st).
+  { unfold machine_noast, entry. fold o. fold st. rewrite Erb. fold o in Hinl. rewrite Hinl. destruct rb; congruence. }
+  exists st'. rewrite Hentry. split; [exact R|]. split; [exact L|exact P].
+Qed.
+
+End Noast.
